@@ -78,3 +78,15 @@ Proof.
   intros [G O]. unfold of_append. destruct (append_ok fs _ _ b G) as (fs' & E & G' & Oth).
   exists fs'. split; [exact E|]. split; [|exact Oth]. split; [rewrite G', app_assoc; reflexivity|exact O].
 Qed.
+
+Lemma of_read_at_ok fs o hdr region pos n : file_is fs o hdr region -> (pos + n <= len region)%N ->
+  of_read_at o pos n fs = (fs, Ok (slice pos (pos + n) region)).
+Proof.
+  intros [G O] H. unfold of_read_at, read_at. rewrite G.
+  destruct (n =? 0)%N eqn:Z.
+  - apply N.eqb_eq in Z. subst n. unfold slice. rewrite N.add_0_r, N.sub_diag, take_firstn. reflexivity.
+  - rewrite len_app, O. replace (pos + len hdr + n <=? len hdr + len region)%N with true by (symmetry; apply N.leb_le; lia).
+    f_equal. f_equal. unfold slice. rewrite !drop_skipn, !take_firstn.
+    replace (N.to_nat (pos + len hdr)) with (length hdr + N.to_nat pos) by (unfold len; lia).
+    rewrite <- skipn_plus, skipn_app, Nat.sub_diag, skipn_all. cbn [skipn app]. f_equal. lia.
+Qed.
